@@ -45,7 +45,8 @@ CHECKS.update({
     "C03": ("Every control/request object (enumerated descriptions) and every status-type object (what the real decoder makes of intact console "
             "payloads) is sent through the real send path; the written bytes are framed and read by the TLA+ wire layer (lengths, nested "
             "sub-header lengths, CRC, reading = submitted object) and fed back into the real receive path; TLC validates the recorded trace "
-            "(delivered header/message = reference reading, nothing left over, no reset).", "6 C03", WIRE_NOTE),
+            "(delivered header/message = reference reading, nothing left over, no reset). Status-type objects are sent twice: as the real decoder "
+            "makes them and as built from the TLA+ reference reading (Check_Read); a documented payload the decoder refuses is a violation.", "6 C03", WIRE_NOTE),
     "C05": ("The public decoders are run on payloads swept per byte position (256 values), per adjacent byte pair, over record counts 0..16, "
             "announced strides (zero and arbitrary tail bytes) and the cross product of documented codes; TLC judges every (payload, result) pair with "
             "Check_Decode: equal to the reference reading (or its sensor-gated variant), absent where the reference is not-available, or rejected - "
@@ -89,7 +90,8 @@ CHECKS.update({
     "C12": ("Histories with subscribe/unsubscribe/double-subscribe placements, raising subscribers and unchanged repeats; per fed frame ClientContract "
             "derives who must be called (exposed attribute changed under every acceptable reading), who must not (identical report) and checks ids; "
             "a raising subscriber must not reduce the others' calls nor stop reception (strict mode); subscribers that (un)subscribe inside their "
-            "callback and one callback holding both kinds of AC subscription are included.", "6 C12", API_NOTE),
+            "callback, one callback holding both kinds of AC subscription and a second life of the object are included. TLC model-checks ClientImpl with "
+            "subscribers (who hears which frame, objects rebuilt at re-init) against the contract; its schedules are replayed.", "6 C12", API_NOTE),
     "C14": ("Connection loss at random points after initialisation, console state changed meanwhile, outages 0..400 s, then reconnection: first frames "
             "= AC status and zone status requests, snapshot = console state, unchanged refresh = no callback; AT4 group-status gaps 100..1000 s: a poll "
             "exactly at each 300 s deadline, none earlier, also while AC status / version / timer frames keep arriving and in a second life of the "
@@ -123,7 +125,7 @@ def main():
             "technique": (TECH if pid in ("C01", "C02", "C07", "C13", "C15", "C16") else
                           "TLA+ reference wire specification evaluated by TLC on recorded results of the real codecs / validated traces of the real socket"
                           if pid in ("C03", "C05", "C06", "C17") else
-                          TECH_API if pid in ("C08", "C09", "C11", "C14", "C18") else
+                          TECH_API if pid in ("C08", "C09", "C11", "C12", "C14", "C18") else
                           "TLA+ contract specification (monitor) + TLA+ oracle; traces recorded from the real client validated by TLC (trace validation)"),
         })
     claimed = set(CHECKS)
